@@ -97,7 +97,7 @@ def main(tier, seed):
     q = tier == "quick"
     names = list(CONFIGS)
     depth = 2 if q else 3
-    rep.cov["rule"] = (f"(a) every ordered history of length {depth} over 10 configurations (4 schedulers x container mode/sizing on the real generator, 400 ticks; a scripted trace in which two containers are preempted, written out and re-queued together; a REST-driven run whose external policy packs operators of three pipelines into one container and reads the reported pipeline ids) run in ONE interpreter: each run's canonical event log "
+    rep.cov["rule"] = (f"(a) every ordered history of length {depth} over 11 configurations (4 schedulers x container mode/sizing on the real generator, 400 ticks; a scripted trace in which two containers are preempted, written out and re-queued together; a scripted trace in which one pipeline is preempted, resumed and then OOM-killed while a second one is preempted later; a REST-driven run whose external policy packs operators of three pipelines into one container and reads the reported pipeline ids) run in ONE interpreter: each run's canonical event log "
                        "(arrivals, decisions, results per tick, identifiers renumbered by first appearance) and statistics must equal those of the same configuration alone in a fresh interpreter; "
                        "(b) fresh interpreters under PYTHONHASHSEED 0..3 (quick) / 0..11 and identifier generators real-uuid4 (twice), ascending, descending, scrambled; all 720 relative orders of the 6 identifiers of a diamond pipeline in-process; "
                        "(c) for a seed range and every non-workload setting (scheduler x pools x cpus x ram x mode x overcommit) the canonical generated workload over 300 ticks is identical, also when observed through run_simulator; all seed pairs differ. "
